@@ -94,6 +94,23 @@ def monitor(c):
                 dict(base, **{"class": classify(c, "hang")}))
     so, se = sizes(c)
     last = n_attempts(c) - 1
+    if c.get("full"):
+        # a redirect target whose writes fail (/dev/full): attempts may fail for that reason alone, so the last attempt is
+        # the last one that ran; whatever happens to the redirect, the step's own log holds what that attempt printed
+        lastf = (c.get("attempts") or 0) - 1
+        lo, le = runs(c["log"], "out"), runs(c["log"], "err")
+        if lastf < 0 or not has_full(lo, lastf, so) or (not c["stderr"] and not has_full(le, lastf, se)):
+            return ("a redirect target that cannot be written (/dev/full as %s:): State.Log lacks bytes of the last attempt (%d): stdout runs %r "
+                    "of %d, stderr runs %r of %d" % ("stdout" if c["full"] == 1 else "stderr", lastf, lo, so, le, 0 if c["stderr"] else se),
+                    dict(base, **{"class": classify(c, "log-full-redirect-beyond-buffer" if c["full"] == 1 and log_flow(c) > BUF
+                                                    else "log-full-redirect")}))
+        if c["full"] == 2 and c["stdout"] and not has_full(runs(c["out_file"], "out"), lastf, so):
+            return ("stderr: is /dev/full and the stdout: file lacks bytes of the last attempt: runs %r of %d" % (runs(c["out_file"], "out"), so),
+                    dict(base, **{"class": classify(c, "stdout-file")}))
+        if c["full"] == 1 and c["stderr"] and not has_full(runs(c["err_file"], "err"), lastf, se):
+            return ("stdout: is /dev/full and the stderr: file lacks bytes of the last attempt: runs %r of %d" % (runs(c["err_file"], "err"), se),
+                    dict(base, **{"class": classify(c, "stderr-file")}))
+        return None
     if exec_limit(c):
         nchild, ran, lastc = simulate_exec_limit(c)
         lo, le = runs(c["log"], "out"), runs(c["log"], "err")
@@ -254,7 +271,8 @@ def compare(c, pred):
 
 def model_check(ctx, cases):
     """Returns list of (case, what)."""
-    todo = [c for c in cases if not c.get("err") and not exec_limit(c) and not c.get("same")]
+    todo = [c for c in cases if not c.get("err") and not exec_limit(c) and not c.get("same") and not c.get("full")]
+    ctx.cov["not_modelled_failing_redirect"] = sum(1 for c in cases if c.get("full"))   # monitor + theorem C12_teardown_flushes_log
     ctx.cov["not_compared_exec_limit"] = sum(1 for c in cases if exec_limit(c))
     ctx.cov["not_modelled_same_file"] = sum(1 for c in cases if c.get("same"))   # judged by the monitor only
     preds = eval_model(ctx, todo)
@@ -267,7 +285,7 @@ def model_check(ctx, cases):
 
 
 # ---- shrinking -------------------------------------------------------------------------------------------------
-IN_KEYS = ("stream", "stdout", "stderr", "output", "script", "retries", "fails", "emit", "size", "blk", "slowdone", "done", "handler", "same")
+IN_KEYS = ("stream", "stdout", "stderr", "output", "script", "retries", "fails", "emit", "size", "blk", "slowdone", "done", "handler", "same", "full")
 
 
 def inputs(c):
@@ -297,6 +315,8 @@ def candidates(c):
         out.append(dict(b, slowdone=0))
     if b.get("same") == 2:
         out.append(dict(b, same=1))
+    if b.get("full") and b["size"] > 1:
+        out.append(dict(b, size=1))
     return out
 
 
@@ -353,6 +373,7 @@ def run(ctx, replay_cases=None):
         c.setdefault("done", 0)
         c.setdefault("handler", "")
         c.setdefault("same", 0)
+        c.setdefault("full", 0)
     bad = model_check(ctx, cases)
     judge(ctx, tool, cases)
     for c, what in bad:
@@ -386,6 +407,8 @@ def run(ctx, replay_cases=None):
     ]
     ctx.assumptions = ["C12_complete: none beyond at least one attempt (every configuration, number of retries, chunking, size)",
                        "`stdout:` and `stderr:` naming one file (two descriptors on one path) is outside the Log model: judged by the monitor only",
+                       "a redirect target whose writes fail (/dev/full) is judged by the monitor; in the model a failing descriptor is one that rejects "
+                       "writes, and C12_teardown_flushes_log shows the log writer is flushed whatever the other writers' state",
                        "after a capture beyond the execve limit (131067 bytes) later attempts of the same step cannot be started (E2BIG) and "
                        "print nothing: those cases are judged as such and not compared with the model"]
     if ctx.tier == "thorough":
@@ -412,8 +435,8 @@ def replay(ctx, path):
         cases.append(fi.get("case", fi))
     if isinstance(body.get("case"), dict):
         cases.append(body["case"])
-    cases = [inputs(dict({"done": 0, "handler": "", "same": 0}, **c)) for c in cases
-             if isinstance(c, dict) and all(k in c for k in IN_KEYS if k not in ("done", "handler", "same"))]
+    cases = [inputs(dict({"done": 0, "handler": "", "same": 0, "full": 0}, **c)) for c in cases
+             if isinstance(c, dict) and all(k in c for k in IN_KEYS if k not in ("done", "handler", "same", "full"))]
     tool, out, _ = vlib.go_build("logs", ctx.scratch)
     if tool is None:
         ctx.fail("correspondence", "harness does not build against /repo", {"log": out[-2000:]})
